@@ -852,6 +852,13 @@ reprocess:
 			int arg_int;
 			memcpy(&arg_int, &buf[data_pos], sizeof(int));
 			data_pos += sizeof(int);
+			if (arg_int < 0 && fmt_pos > 0 && fmt[fmt_pos - 1] == '.') {
+				/* a negative precision is taken as if the
+				 * precision were omitted */
+				fmt_pos--;
+				format++;
+				goto reprocess;
+			}
 			len = snprintf(&fmt[fmt_pos],
 				       MINI_FORMAT_STR_LEN - 4 - fmt_pos,
 				       "%d", arg_int);
